@@ -18,9 +18,11 @@ proof (coq/theories/Trace/VcdProofs.v, stated in Props/C16.v; model in Trace/Vcd
   C16_acceptor_sound: rows_match ... = true  ->  every read-back value equals the sampled one.
 
 tie, checked on every run (T-acc + T-diff on the REAL .vcd file):
-  random small pymtl3 designs (children, nested children, lists of components/ports, Bits of many widths,
-  bitstruct ports incl. nested/list fields, pure-connection nets spanning several components, constants, slices and
-  struct-field connections, never-written wires, counters/toggles) are simulated with DefaultPassGroup(vcdwave=...,
+  random small pymtl3 designs (children, nested children, lists of components/ports, Bits of 1..200 bits,
+  bitstruct ports incl. nested/list/wide (61..67-bit) fields, pure-connection nets spanning several components, constants, slices and
+  struct-field connections, never-written wires, counters/toggles; inputs move between values that collide under
+  cheap comparisons: equal hash()/mod 2^61-1/2^31-1, equal low 32/64 bits, complements, reversals, rotations,
+  zeros<->ones) are simulated with DefaultPassGroup(vcdwave=...,
   textwave=True).  A sampling function is inserted into the two tick
   schedules PrepareSimPass builds (sim_tick and sim_reset) at the clock edge = immediately before the first
   flip-flop/posedge-flip block (independent of where the dump function sits); it reads every top-level signal's live
@@ -55,6 +57,16 @@ class Nest:
 class Wide:
   lo: Bits33
   hi: Bits40
+
+@bitstruct
+class Tagged:
+  tag: Bits3
+  data: Bits64
+
+@bitstruct
+class Big:
+  a: Bits61
+  b: Bits67
 
 class Reg( Component ):
   def construct( s, T ):
@@ -143,8 +155,35 @@ class Idle( Component ):
     s.out = OutPort( T )
 '''
 
-STRUCTS = {'Pt': 8, 'Nest': 15, 'Wide': 73}
-BWIDTHS = [1, 1, 2, 3, 4, 5, 7, 8, 8, 13, 16, 31, 32, 33, 64, 65, 100]
+STRUCTS = {'Pt': 8, 'Nest': 15, 'Wide': 73, 'Tagged': 67, 'Big': 128}
+BWIDTHS = [1, 1, 2, 3, 4, 5, 7, 8, 8, 13, 16, 31, 32, 33, 61, 62, 63, 64, 64, 65, 96, 100, 127, 128, 129, 200]
+
+# moduli / truncations under which a lazy "did it change?" test (hash(), a 32/64-bit compare, an int cast) would call
+# two different values equal: CPython hashes ints mod 2^61-1 (2^31-1 on 32-bit builds); machine words keep the low
+# 8/16/31/32/63/64 bits
+CHEAP_MODULI = [(1 << 61) - 1, (1 << 31) - 1, 1 << 64, 1 << 32, 1 << 63, 1 << 31, 1 << 16, 1 << 8]
+
+def bitrev(x, w): return int(format(x, f'0{w}b')[::-1], 2)
+def rotl(x, r, w): return ((x << r) | (x >> (w - r))) & ((1 << w) - 1) if w > 1 else x
+
+def value_families(rng, w):
+  """groups of DIFFERENT w-bit values that look alike under some cheap comparison"""
+  top = (1 << w) - 1
+  x = rng.choice([0, top, rng.getrandbits(w), rng.getrandbits(w)])
+  fams = []
+  for m in CHEAP_MODULI:
+    r = x % m
+    if r + m <= top:                                   # at least two values of this width are congruent
+      kmax = (top - r) // m
+      fams.append(('mod' + (f'2^{m.bit_length()}-1' if m & 1 else f'2^{m.bit_length() - 1}'),
+                   sorted({r, r + kmax * m, r + rng.randint(0, kmax) * m, r + rng.randint(0, kmax) * m})))
+  fams.append(('extremes', [0, top]))
+  fams.append(('complement', [x, top ^ x]))
+  fams.append(('bit-reversal', [x, bitrev(x, w)]))
+  fams.append(('same-popcount', [x, rotl(x, rng.randrange(w), w), rotl(x, 1, w)]))
+  fams.append(('one-bit-apart', [x, x ^ 1, x ^ (1 << (w - 1))]))     # same str()/bin() length, nearly equal
+  fams.append(('random', [rng.getrandbits(w) for _ in range(2)]))
+  return fams
 
 def tdecl(T):
   return f'mk_bits({T[1]})' if T[0] == 'b' else T[1]
@@ -225,7 +264,7 @@ def render(spec, name):
 # ----------------------------------------------------------------------------- random specs
 def rand_type(rng, allow_struct=True):
   if allow_struct and rng.random() < 0.3:
-    return ('s', rng.choice(['Pt', 'Pt', 'Nest', 'Wide']))
+    return ('s', rng.choice(['Pt', 'Pt', 'Nest', 'Wide', 'Tagged', 'Big']))
   return ('b', rng.choice(BWIDTHS))
 
 def rand_stage(rng, T):
@@ -270,16 +309,22 @@ def rand_spec(rng, big=False):
   return {'chains': chains, 'extras': extras}
 
 def rand_inputs(rng, inputs, ncyc):
-  """per cycle {input index: int value}; values come from a small pool per input so that old values are revisited,
-  and are held for several cycles so that nets stay unchanged"""
+  """per cycle [value per input].  Every input draws from a small pool built from 1-3 `value_families` of its packed
+  width (values that collide under cheap comparisons: congruent mod 2^61-1 / 2^31-1 / 2^32 / 2^64 ..., complements,
+  bit reversals, rotations, one bit apart, all-zeros/all-ones), so consecutive cycles move between look-alike values,
+  old values are revisited, and (hold probability) nets stay unchanged for several cycles."""
   pools = []
   for (_, _, T) in inputs:
     w = twidth(T)
-    pool = [0, (1 << w) - 1] + [rng.getrandbits(w) for _ in range(rng.randint(1, 2))]
-    rng.shuffle(pool)
-    pools.append(pool[:rng.randint(2, len(pool))])
+    fams = value_families(rng, w)
+    pool = []
+    for _, vals in rng.sample(fams, rng.randint(1, min(3, len(fams)))):
+      for v in vals[:3]:
+        if v not in pool: pool.append(v)
+    if len(pool) < 2: pool = [0, (1 << w) - 1]
+    pools.append(pool)
   seq, cur = [], [0] * len(inputs)
-  hold = rng.choice([0.0, 0.3, 0.6, 0.9])
+  hold = rng.choice([0.0, 0.0, 0.3, 0.6, 0.9])
   for t in range(ncyc):
     for i in range(len(inputs)):
       if t == 0 or rng.random() >= hold:
@@ -303,6 +348,13 @@ DIRECTED = [
               {'T': ('s', 'Pt'), 'stages': [('PtSwap',), ('PtFields',), ('Reg',)], 'share': None, 'aslist': False},
               {'T': ('b', 100), 'stages': [('Inv',), ('SliceMix', 37, 12345)], 'share': None, 'aslist': False}],
    'extras': [('konst', ('b', 100), (1 << 100) - 1), ('counter', ('b', 33)), ('idle', ('s', 'Nest'))]},
+  # wide values: 61..200 bits and structs with wide fields, through registers, pure connections and list ports
+  {'chains': [{'T': ('b', 61), 'stages': [('Reg',)], 'share': None, 'aslist': False},
+              {'T': ('b', 64), 'stages': [('PassThru',), ('Reg',)], 'share': None, 'aslist': False},
+              {'T': ('s', 'Tagged'), 'stages': [('Nested',)], 'share': None, 'aslist': False},
+              {'T': ('s', 'Big'), 'stages': [], 'share': None, 'aslist': False},
+              {'T': ('b', 200), 'stages': [('Inv',)], 'share': None, 'aslist': False}],
+   'extras': [('listports', ('b', 128), 2), ('listports', ('b', 62), 1)]},
   # one input fanned into three chains: one big net across many components
   {'chains': [{'T': ('b', 8), 'stages': [('PassThru',), ('PassThru',)], 'share': None, 'aslist': False},
               {'T': ('b', 8), 'stages': [('Fan', 3), ('PassThru',)], 'share': 0, 'aslist': False},
@@ -370,7 +422,7 @@ def run_design(src, name, inputs, seq, reset, vcd=True, tag='d'):
     samples.append(row)
   if vcd:
     insert_sampler(top, top.get_metadata(VcdGenerationPass.vcd_func), c16_sample)
-  types = {'Pt': mod.Pt, 'Nest': mod.Nest, 'Wide': mod.Wide}
+  types = {k: getattr(mod, k) for k in STRUCTS}
   from pymtl3.datatypes import mk_bits
   if reset: top.sim_reset()
   for rowv in seq:
@@ -562,6 +614,24 @@ def feature_hist(ctx, spec, an, seq, reset):
   inc('nets-with>=2-signals', sum(1 for s in an['net_sizes'] if s >= 2))
   inc('nets-with>=4-signals', sum(1 for s in an['net_sizes'] if s >= 4))
 
+def lookalike_stats(samples, widths, acc):
+  """count consecutive-cycle value CHANGES of any signal that collide under a cheap comparison"""
+  if not samples: return
+  for i, w in enumerate(widths):
+    top, prev = (1 << w) - 1, samples[0][i]
+    for r in samples[1:]:
+      v = r[i]
+      if v != prev:
+        if w >= 61 and hash(v) == hash(prev): acc['equal-hash()'] = acc.get('equal-hash()', 0) + 1
+        if w > 32 and (v ^ prev) & 0xffffffff == 0: acc['equal-low-32'] = acc.get('equal-low-32', 0) + 1
+        if w > 64 and (v ^ prev) & ((1 << 64) - 1) == 0: acc['equal-low-64'] = acc.get('equal-low-64', 0) + 1
+        if w > 31 and v % 0x7fffffff == prev % 0x7fffffff: acc['equal-mod-2^31-1'] = acc.get('equal-mod-2^31-1', 0) + 1
+        if w > 1 and bin(v).count('1') == bin(prev).count('1'): acc['equal-popcount'] = acc.get('equal-popcount', 0) + 1
+        if v == top ^ prev: acc['complement'] = acc.get('complement', 0) + 1
+        if {v, prev} == {0, top}: acc['zeros<->ones'] = acc.get('zeros<->ones', 0) + 1
+        if w >= 61: acc['changes-of-signals>=61-bits'] = acc.get('changes-of-signals>=61-bits', 0) + 1
+      prev = v
+
 def trace_stats(samples):
   """(#signals that never change, #signals that return to an earlier value after leaving it)"""
   if not samples: return 0, 0
@@ -671,9 +741,9 @@ def run(ctx):
   import pymtl3
   rng = ctx.rng
   quick = ctx.tier == 'quick'
-  ndesigns = 120 if quick else 2500
+  ndesigns = 120 if quick else 1600
   batch_size = 64 if quick else 100
-  batch, total_cells, tn, trv = [], 0, 0, 0
+  batch, total_cells, tn, trv, lookalike = [], 0, 0, 0, {}
   def flush():
     nonlocal batch
     check_batch(ctx, batch); batch = []
@@ -713,6 +783,7 @@ def run(ctx):
                     {'design_source': src, 'top': name, 'inputs': [list(x) for x in inputs], 'input_sequence': seq,
                      'sim_reset_first': reset, 'mismatches': an['textwave_mismatches'][:6]})
     never, revisit = trace_stats(res['samples'])
+    lookalike_stats(res['samples'], [w for _, w in res['sigs']], lookalike)
     tn += never; trv += revisit
     total_cells += len(res['samples']) * len(res['sigs'])
     changes = sum(1 for a, _ in an['tokens'] if a == 'v')
@@ -727,6 +798,7 @@ def run(ctx):
     if len(batch) >= batch_size: flush()
   flush()
   ctx.extra['signal_cycle_values_compared'] = total_cells
+  ctx.extra['lookalike_consecutive_changes'] = lookalike
   ctx.extra['signals_never_changing'] = tn
   ctx.extra['signals_revisiting_an_old_value'] = trv
 
@@ -761,8 +833,9 @@ def main(ctx):
     ctx.note('correspondence crashed: ' + traceback.format_exc()[-1500:])
     ctx.violation('C16:harness-crash', f'correspondence could not run: {e!r}', {'traceback': traceback.format_exc()}, found_input=False)
   return ctx.finish(rule='case = one generated design (directed corner designs + random chains of library stages over random Bits/bitstruct '
-                         'types, shared inputs, constants, slices, idle wires, counters) x one input sequence drawn from a 2-4 value pool '
-                         'per input with random hold probability (so values are revisited and nets stay unchanged) x with/without sim_reset; '
+                         'types 1..200 bits, shared inputs, constants, slices, idle wires, counters) x one input sequence drawn per input from a small '
+                         'pool of look-alike values (congruent mod 2^61-1/2^31-1/2^32/2^64.., complements, bit reversals, rotations, one bit '
+                         'apart, zeros/ones) with random hold probability (values revisited, nets unchanged for runs) x with/without sim_reset; '
                          'distinct = distinct (source, sequence, reset); non-trivial = at least one simulated cycle and more than clk/reset; '
                          'every top-level signal of every component at every cycle is compared inside Coq (decode on the real file vs samples), '
                          'and the proved writer model is compared line-for-line with the file body')
